@@ -151,6 +151,12 @@ class Effects:
                         if not path or path[-1] != "[]":
                             path.append("[]")
                     e = e[2][0]
+                elif self._local_ret(ev, e) is not None:
+                    # a workspace function returning a reference: where its result points is read off its own body
+                    # (`fn book_mut(&mut self, i) -> &mut Book { &mut self.books[i] }` points below arg0.books[])
+                    k, rpath = self._local_ret(ev, e)
+                    path.extend(reversed(rpath))
+                    e = e[2][k]
                 else:
                     # a reference result of a call with exactly ONE reference-typed argument points somewhere below
                     # that argument (lifetime elision; e.g. builder methods `fn(&mut self, ..) -> &mut Self`): continue
@@ -185,6 +191,36 @@ class Effects:
                 return Loc(("unknown", "phi"), [])
             else:
                 return Loc(("unknown", t), [])
+
+    def _local_ret(self, ev, e):
+        """(argument position, path below it) the reference returned by a call of a workspace function points to; None if
+        the callee is not local, does not return a reference, or its result is not rooted at one parameter"""
+        at = e[3] if len(e) > 3 else None
+        if not at or at[0] >= len(ev.body.blocks):
+            return None
+        term = ev.body.blocks[at[0]].term
+        if term is None or term.k != "call" or len(term.args) != len(e[2]):
+            return None
+        dty = term.dest.ty
+        if not (dty.startswith("&") or contains_mut_ref(dty)):
+            return None
+        callee = self.prog.target(term)
+        if callee is None or callee.body is None:
+            return None
+        key = self.key(callee)
+        memo = self.__dict__.setdefault("_retloc", {})
+        if key not in memo:
+            memo[key] = None      # recursion guard
+            cev = self.ev(callee)
+            locs = []
+            for b in callee.body.return_blocks():
+                locs.append(self.base(callee, cev.local_val(0, cev.term_at(b))))
+            if locs and all(l.root[0] == "param" and l.root == locs[0].root and l.path == locs[0].path for l in locs):
+                memo[key] = (locs[0].root[1] - 1, list(locs[0].path))
+        r = memo[key]
+        if r is None or r[0] >= len(e[2]):
+            return None
+        return r
 
     # ------------------------------------------------------------------ summaries
     def summary(self, fn):
